@@ -247,7 +247,7 @@ impl Prop for C04 {
         ]
     }
     fn strategy(&self, tier: Tier) -> Option<(BoxedStrategy<Case>, u32)> {
-        Some((ruletree::tree().prop_map(|tree| Case { tree }).boxed(), tier.pick(3_000, 100_000)))
+        Some((ruletree::tree().prop_map(|tree| Case { tree }).boxed(), tier.pick(20_000, 200_000)))
     }
     fn check(&self, case: &Case, cx: &mut Ctx) -> Verdict {
         if !ruletree::in_domain(&case.tree) {
